@@ -337,7 +337,13 @@ func drivePipe(c *Ctx) error {
 		go func(i int, in pipeInput) {
 			defer wg.Done()
 			defer func() { <-sem }()
+			if skipInput(in) {
+				out[i] = res{in: in, evs: []tr.M{{"ev": "gen", "text": "", "feats": []string{"skipped"}, "mode": in.Mode, "engine": in.Engine}}}
+				return
+			}
+			journal("S", in)
 			evs, nt := pipeRun(in, stages)
+			journal("D", in)
 			out[i] = res{in, evs, nt}
 		}(i, in)
 	}
@@ -358,6 +364,8 @@ func firstN(s string, n int) string {
 	}
 	return s
 }
+
+var recursiveGlobRe = regexp.MustCompile(`\*{2,}`)
 
 func guard(name string, evs *[]tr.M, f func()) (ok bool) {
 	done := make(chan struct{})
@@ -389,7 +397,9 @@ func guard(name string, evs *[]tr.M, f func()) (ok bool) {
 func pipeRun(in pipeInput, stages map[string]bool) (evs []tr.M, nt []string) {
 	text := in.Text
 	var d *gen.Diagram
-	if text == "" {
+	if text == "" && in.Mode == "soup" {
+		text = gen.Soup(rand.New(rand.NewSource(in.Seed*17 + 3)))
+	} else if text == "" {
 		d = gen.Generate(rand.New(rand.NewSource(in.Seed)), pipeOpts(in.Mode))
 		text = d.Text
 	}
@@ -422,10 +432,13 @@ func pipeRun(in pipeInput, stages map[string]bool) (evs []tr.M, nt []string) {
 	var g0 *d2graph.Graph
 	var cerr error
 	t0 := time.Now()
+	// recursive globs (** / ***) in the text: a syntactic fact about the input the known-findings classifier of C07 needs
+	rglobs := len(recursiveGlobRe.FindAllString(text, -1))
 	if !guard("compile", &evs, func() { g0, _, cerr = d2compiler.Compile("in.d2", strings.NewReader(text), nil) }) {
+		evs[len(evs)-1]["rglobs"] = rglobs
 		return
 	}
-	ce := tr.M{"ev": "compile", "ok": tr.B(cerr == nil), "ms": int(time.Since(t0).Milliseconds()), "bytes": len(text), "errPositioned": 1, "digest": "", "msg": ""}
+	ce := tr.M{"ev": "compile", "ok": tr.B(cerr == nil), "ms": int(time.Since(t0).Milliseconds()), "bytes": len(text), "rglobs": rglobs, "errPositioned": 1, "digest": "", "msg": ""}
 	if cerr != nil {
 		ce["errPositioned"] = tr.B(errorsPositioned(cerr))
 		ce["msg"] = firstN(cerr.Error(), 200)
@@ -478,6 +491,9 @@ func pipeRun(in pipeInput, stages map[string]bool) (evs []tr.M, nt []string) {
 				return
 			}
 			fe["parseOK"] = 1
+			if d == nil {
+				fe["feats"] = append(append(feats, boardFeats(m)...), eofFeats(text, m)...)
+			}
 			f1 := d2format.Format(m)
 			m2, err := d2parser.Parse("in.d2", strings.NewReader(f1), nil)
 			if err != nil {
@@ -801,3 +817,59 @@ func errorsPositioned(err error) bool {
 }
 
 var _ = bytes.Equal
+
+// boardFeats names, for a program that did not come from the diagram generator, the syntactic situations the known
+// formatter findings are about: a layers/scenarios/steps block that comes before other declarations of its map.
+func boardFeats(m *d2ast.Map) []string {
+	set := map[string]bool{}
+	var walk func(m *d2ast.Map)
+	walk = func(m *d2ast.Map) {
+		for i, nb := range m.Nodes {
+			if nb.MapKey == nil {
+				continue
+			}
+			if nb.IsBoardNode() {
+				later := false
+				for _, nb2 := range m.Nodes[i+1:] {
+					if !nb2.IsBoardNode() {
+						later = true
+					}
+				}
+				if later {
+					if i == 0 {
+						set["boards-first"] = true
+					} else {
+						set["boards-middle"] = true
+					}
+					set["boards-"+nb.MapKey.Key.Path[0].Unbox().ScalarString()] = true
+				}
+			}
+			if nb.MapKey.Value.Map != nil {
+				walk(nb.MapKey.Value.Map)
+			}
+		}
+	}
+	walk(m)
+	out := []string{}
+	for k := range set {
+		out = append(out, k)
+	}
+	sort.Strings(out)
+	return out
+}
+
+
+// eofFeats: a program whose last line has no final newline, and what that line is (the whole file, or the end of an array).
+func eofFeats(text string, m *d2ast.Map) []string {
+	if strings.HasSuffix(text, "\n") || text == "" {
+		return nil
+	}
+	out := []string{"no-final-newline"}
+	if !strings.Contains(text, "\n") && len(m.Nodes) > 1 {
+		out = append(out, "file-on-one-line")
+	}
+	if strings.HasSuffix(strings.TrimRight(text, " \t"), "]") {
+		out = append(out, "array-then-eof")
+	}
+	return out
+}
